@@ -58,7 +58,7 @@ func prepScene(d *Driver, name string) {
 	switch name {
 	case "oracle":
 		// names that are prefixes / concatenations of one another are probed at every observation
-		c.ProbeAssets = []string{"ETH", "ETHZ", "ETHel", "ETHelys", "ETHe", "WBTC", "WBTC.e", "BTC", "ATOM"}
+		c.ProbeAssets = []string{"ETH", "ETHZ", "ETHel", "ETHelys", "ETHe", "WBTC", "WBTC.e", "BTC", "ATOM", "ibc/ETH", "ibc"}
 		c.ProbeDenoms = []string{"uusdc", "uatom", "unknown"}
 		c.AddKey("f2")
 		ctx := c.AdminCtx()
